@@ -178,6 +178,12 @@ func (x *g) pub(ci int, qosMax int) Op {
 	if r.Bool(1, 12) {
 		op.Size = x.boundarySize(op.Topic, op.QoS)
 	}
+	if op.QoS > 0 && r.Bool(1, 10) {
+		// the first copy the broker sees is already a retransmission (the
+		// original was lost with an earlier connection): the flag must not
+		// travel on, neither with forwards nor with a retained copy
+		op.Dup = true
+	}
 	return op
 }
 
@@ -616,6 +622,9 @@ func genRetained(prop string) func(tier string, seed uint64, idx int) interface{
 				}
 				if op.QoS > 0 {
 					op.PID = x.nextPID(ci)
+					// (a tenth of the first copies are already retransmissions: the
+					// DUP flag is not part of what is retained)
+					op.Dup = r.Bool(1, 10)
 				}
 				if op.QoS < 2 && r.Bool(1, 4) {
 					op.NoWait = true
